@@ -561,6 +561,7 @@ func runC17(c *Ctx) {
 	}
 	c17panicPayloads(c, hooked)
 	c17nestedCauses(c, hooked)
+	c17numericErrors(c, hooked)
 	// product: class x shape x verb x flags x wp (+ panicking hook)
 	var cases []*c17case
 	id := 0
